@@ -7,7 +7,7 @@
 From Coq Require Import String List NArith Bool.
 From FIM Require Import Base.Str Gen.Rules Model.T7Pinned Model.T7Graph Model.T7Ops Model.T7WF Model.T7Steps
      Model.T7Rel Proofs.T7Tables Proofs.T7WFRefl Proofs.T7Units Proofs.T7Api Proofs.T7Api2 Proofs.T7Api3 Proofs.T7Api4
-     Proofs.T7RelAdd Proofs.T7Api5 Proofs.T7Api6 Proofs.T7Hist Proofs.T7Views Proofs.T7Refuted.
+     Proofs.T7RelAdd Proofs.T7Api5 Proofs.T7Api6 Proofs.T7Rem3 Proofs.T7Rem5 Proofs.T7Hist Proofs.T7Views Proofs.T7Refuted.
 Import ListNotations.
 
 (* ---- the tables ------------------------------------------------------------------------------------------ *)
@@ -88,12 +88,15 @@ Print Assumptions C07_add_peering2_preserves.
    node.add_network_service, add_network_service without interfaces, add_link, remove_link, add_child_interface,
    rename, set_property, unset_property -- for the library with or without the repairs (any `flags`) -- and
    connect_interface (library with the name check 8b1a93d and the rollback 7b7379b), disconnect_interface, peer,
-   unpeer, remove_child_interface; whatever the outcome of the call (normal return or any exception, with the partial
-   effects made before it, including the state peer / connect_interface leave after taking a half-made peering away).
+   unpeer, remove_child_interface, and the removals remove_node, node.remove_component, remove_facility, remove_switch,
+   remove_network_service, node.remove_network_service (library that skips interfaces already taken away, 5286851;
+   three structural side conditions, rem_pre); whatever the outcome of the call (normal return or any exception, with
+   the partial effects made before it, including the state peer / connect_interface leave after taking a half-made
+   peering away -- the removals are shown never to fail once they have deleted something).
    add_facility / add_switch: proved for the normal return (C07_add_facility_switch_returns_partial below); the state
    after their rollback of a rejected later step is a removal program and is NOT proved.
    NOT proved (covered by the wf_b evaluation on implementation snapshots only): add_network_service with interfaces,
-   port mirror, remove_node / remove_component / remove_network_service / remove_facility / remove_switch. *)
+   port mirror. *)
 Theorem C07_step_preserves_partial :
   forall sub fl g o drawn hint g' out, WF g -> op_pre fl g o = true -> step sub fl g o drawn hint = (g', out) -> WF g'.
 Proof. exact step_preserves_partial. Qed.
@@ -138,6 +141,46 @@ Theorem C07_unpeer_preserves :
     WF (sg st) -> subs_under_dedicated (sg st) = true -> ns_unpeer a b st = (st', r) -> WF (sg st').
 Proof. exact api_unpeer. Qed.
 Print Assumptions C07_unpeer_preserves.
+
+(* the removals, one by one.  Side conditions (Model/T7Steps.v; each holds of every model the API builds, none is a
+   published rule): subs_under_dedicated -- interface-to-interface edges have a DedicatedPort end; ns_cp_connects -- an
+   interface hangs off a service over `connects`; one_sp_peer -- an interface has at most one service-port peer. *)
+Theorem C07_remove_network_service_preserves :
+  forall fl hint name s s' r,
+    WF (sg s) -> subs_under_dedicated (sg s) = true -> one_sp_peer (sg s) = true -> fl_skip_gone fl = true ->
+    t_remove_ns fl hint name s = (s', r) -> WF (sg s').
+Proof. exact api_t_remove_ns. Qed.
+Print Assumptions C07_remove_network_service_preserves.
+Theorem C07_node_remove_network_service_preserves :
+  forall fl hint nd name s s' r,
+    WF (sg s) -> subs_under_dedicated (sg s) = true -> one_sp_peer (sg s) = true -> fl_skip_gone fl = true ->
+    node_remove_ns fl hint nd name s = (s', r) -> WF (sg s').
+Proof. exact api_node_remove_ns. Qed.
+Print Assumptions C07_node_remove_network_service_preserves.
+Theorem C07_remove_node_preserves :
+  forall fl hint name s s' r,
+    WF (sg s) -> subs_under_dedicated (sg s) = true -> ns_cp_connects (sg s) = true -> one_sp_peer (sg s) = true ->
+    fl_skip_gone fl = true -> t_remove_node fl hint name s = (s', r) -> WF (sg s').
+Proof. exact api_t_remove_node. Qed.
+Print Assumptions C07_remove_node_preserves.
+Theorem C07_remove_facility_preserves :
+  forall fl hint name s s' r,
+    WF (sg s) -> subs_under_dedicated (sg s) = true -> ns_cp_connects (sg s) = true -> one_sp_peer (sg s) = true ->
+    fl_skip_gone fl = true -> t_remove_facility fl hint name s = (s', r) -> WF (sg s').
+Proof. exact api_t_remove_facility. Qed.
+Print Assumptions C07_remove_facility_preserves.
+Theorem C07_remove_switch_preserves :
+  forall fl hint name s s' r,
+    WF (sg s) -> subs_under_dedicated (sg s) = true -> ns_cp_connects (sg s) = true -> one_sp_peer (sg s) = true ->
+    fl_skip_gone fl = true -> t_remove_switch fl hint name s = (s', r) -> WF (sg s').
+Proof. exact api_t_remove_switch. Qed.
+Print Assumptions C07_remove_switch_preserves.
+Theorem C07_remove_component_preserves :
+  forall fl hint nd name s s' r,
+    WF (sg s) -> subs_under_dedicated (sg s) = true -> ns_cp_connects (sg s) = true -> one_sp_peer (sg s) = true ->
+    fl_skip_gone fl = true -> node_remove_component fl hint nd name s = (s', r) -> WF (sg s').
+Proof. exact api_node_remove_component. Qed.
+Print Assumptions C07_remove_component_preserves.
 
 (* constructor level (used by the calls above AND by the unproved add_component / add_facility / add_switch):
    the sliver additions create node + owner edge together (abc_property_graph.py:1242-1301) -- the pair
@@ -281,6 +324,23 @@ Example C07_histories_hypothesis_satisfiable_ports :
   pre_along false flags_on ex_base ex_hist2 = true /\
   map (fun k => length (gnodes (run_hist false flags_on ex_base (firstn k ex_hist2)))) [3; 6; 7; 8; 9] = [14; 21; 19; 16; 13] /\
   wf_b (run_hist false flags_on ex_base ex_hist2) = true.
+Proof. vm_compute. repeat split. Qed.
+(* ... and by the removals, on a model with connections, a peering and a node-level service: the service with two
+   connections and a peering goes (24 -> 16 elements), then the node-level service, a component whose port is connected
+   to another service, and the node with what is left on it; the two services that remain are all that is left *)
+Definition ex_hist3 : list hstep :=
+  firstn 6 ex_hist2 ++
+  [(ONodeAddNS (S "u1") (S "ns") None (S "OVS"), [S "v11"], []);
+   (OConnect (S "v2") (S "u4"), [S "v12"; S "v13"], []);
+   (ORemoveNS (S "s2"), [], []);
+   (ONodeRemoveNS (S "u1") (S "ns"), [], []);
+   (ORemoveComponent (S "u1") (S "c2"), [], []);
+   (ORemoveNode (S "n1"), [], [])].
+Example C07_histories_hypothesis_satisfiable_removals :
+  pre_along false flags_on ex_base ex_hist3 = true /\
+  map (fun k => length (gnodes (run_hist false flags_on ex_base (firstn k ex_hist3)))) [8; 9; 10; 11; 12] = [24; 16; 15; 10; 2] /\
+  map nid (gnodes (run_hist false flags_on ex_base ex_hist3)) = [S "u9"; S "v2"] /\
+  wf_b (run_hist false flags_on ex_base ex_hist3) = true.
 Proof. vm_compute. repeat split. Qed.
 (* a closed removal set that is not trivial: the component c1 with its service, ports and sub-interface *)
 Example C07_closed_removal_satisfiable :
